@@ -2,7 +2,7 @@ SPECIFICATION MCSpec
 CONSTANTS
   Relax = {}
   Mode = "honest"
-  MaxBlocks = 2
+  MaxBlocks = 3
   MaxReload = 1
 CONSTRAINT Bounded
 VIEW View
